@@ -564,7 +564,16 @@ class FunctionVC:
                     # in a state where the locals assigned earlier hold arbitrary values of the types
                     # the contract declares (`block_locals`); nothing is claimed about the rest
                     body = [s_ for s_ in body if not (isinstance(s_, ast.Expr) and
-                                                      isinstance(s_.value, ast.Constant))][rng[0]:rng[1]]
+                                                      isinstance(s_.value, ast.Constant))]
+                    if isinstance(rng[0], str):
+                        # (start_source, count): the block starts at the first statement whose source
+                        # is exactly `start_source` -- robust against statements added in front of it
+                        at = [k_ for k_, s_ in enumerate(body) if ast.unparse(s_) == rng[0]]
+                        if not at:
+                            raise Unsupported('block contract: no statement %r in %s' % (rng[0], c.target))
+                        body = body[at[0]:at[0] + rng[1]]
+                    else:
+                        body = body[rng[0]:rng[1]]
                     for n_, t_ in c.ghost.get('block_locals', {}).items():
                         I.env[n_] = fresh(parse_ty(t_), n_)
                 I.exec_block(body)
